@@ -53,15 +53,19 @@ func (Engine) Run(c *simkit.Choices, x *simkit.Ctx) *simkit.Violation {
 
 	// per-value reference: the push parser on that value alone
 	refs := make([][]simkit.Ev, k)
+	noRef := make([]bool, k)
 	for i, sp := range doc.Values {
 		t := simkit.NewTap(nil)
 		var err error
 		pi := simkit.Guard(func() { err = cd.Parse(stream[sp[0]:sp[1]], t) })
 		if pi != nil || err != nil {
-			// the push parser refuses a value of the independent writer: not
-			// this property's business (conformance); skip the scenario
-			st.Probe("skipped-push-parser-refuses-value")
-			return nil
+			// the push parser refuses a value of the independent writer: that
+			// is a conformance question, but the decoder still owes k
+			// successful Next calls and io.EOF; only the event comparison of
+			// this value is dropped
+			st.Probe("push-parser-refuses-value-events-not-compared")
+			noRef[i] = true
+			continue
 		}
 		refs[i] = t.Events
 	}
@@ -115,7 +119,7 @@ func (Engine) Run(c *simkit.Choices, x *simkit.Ctx) *simkit.Violation {
 		}
 		st.Eval(1)
 		st.Distinct(simkit.NewDigest().Bytes(data).Str(sc.Ctor).Int(sc.BufSize).Ints(sc.Reads).Int(b2i(sc.EOFWithData)).Sum())
-		if v := runPlan(cd, f, sc, data, refs, doc, truncIn, x); v != nil {
+		if v := runPlan(cd, f, sc, data, refs, noRef, doc, truncIn, x); v != nil {
 			return v
 		}
 	}
@@ -123,7 +127,7 @@ func (Engine) Run(c *simkit.Choices, x *simkit.Ctx) *simkit.Violation {
 	return nil
 }
 
-func runPlan(cd *common.Codec, f model.Format, sc *Scenario, data []byte, refs [][]simkit.Ev, doc *model.Doc,
+func runPlan(cd *common.Codec, f model.Format, sc *Scenario, data []byte, refs [][]simkit.Ev, noRef []bool, doc *model.Doc,
 	truncIn int, x *simkit.Ctx) *simkit.Violation {
 	st := x.Stats
 	simkit.SetCurrent(sc)
@@ -198,7 +202,7 @@ func runPlan(cd *common.Codec, f model.Format, sc *Scenario, data []byte, refs [
 					Detail:   fmt.Sprintf("Next call %d of %d complete values returned %v (events so far: %s)", call+1, k, err, simkit.EventsString(t.Events, 8)),
 					Scenario: sc}
 			}
-			if d := simkit.DiffEvents(refs[call], t.Events); d >= 0 {
+			if d := simkit.DiffEvents(refs[call], t.Events); d >= 0 && !noRef[call] {
 				return &simkit.Violation{Kind: "events-differ", Site: site,
 					Detail: fmt.Sprintf("Next call %d: events differ at %d from the push parser on that value alone: want %s | got %s", call+1, d,
 						simkit.EventsString(refs[call], 10), simkit.EventsString(t.Events, 10)),
